@@ -235,6 +235,13 @@ def resolver_entry_flags(ctx, rid):
             ok = fld == "false" and show(args[i_par]) in ("[]",) and show(args[i_name]) == "v1::None" and args[i_id][0] == "param"
             ctx.expect(ok, rid, "entry/" + cshort(b["path"]), site(n), "plain entry: is_field=false, no parent params, no name",
                        "entry point calls the resolver as " + show(t))
+    # a nested resolution must not go through an entry point: the entry points start over with an empty parent-parameter list
+    entry_paths = {b["path"] for b, _n, _t in callers}
+    for n in walk(fn["body"]):
+        if n.get("k") in ("Call", "MethodCall") and n.get("callee") in entry_paths:
+            ctx.bad(rid, "nested-call/through-entry/" + cshort(n["callee"]), site(n),
+                    "the resolver resolves a nested type through the entry point `%s`, which passes no parent parameters: a generic parameter used inside "
+                    "this position is resolved to a concrete type" % cshort(n["callee"]))
     # nested recursive calls: literal false + None
     nested = [(n, t) for b, n, t in sites if b["path"] == fn["path"]]
     ctx.count("nested resolver calls", len(nested), 5)
